@@ -1,6 +1,7 @@
 package main
 
 import (
+	"os"
 	"github.com/streamingfast/shutter"
 	"go.uber.org/zap"
 	"errors"
@@ -208,7 +209,18 @@ func suiteHubSubs(o *Out, r *Rng, n int, tier string) {
 			return true
 		}
 		for _, b := range linearChain(head+concurrentFeed+1, final) {
-			ls.Push(b.pb(), nil)
+			// the feeder must never be blocked by a subscriber (watchdog: a stuck feeder ends the run as a hang)
+			pushed := make(chan struct{})
+			go func(b TBlock) { ls.Push(b.pb(), nil); close(pushed) }(b)
+			select {
+			case <-pushed:
+			case <-time.After(15 * time.Second):
+				o.Op("sub 0 0")
+				o.Impl("hub-feeder-blocked-while-pushing-block-%d", b.Num)
+				o.End()
+				o.Flush()
+				os.Exit(3)
+			}
 			// pace the feeder: the reading subscribers must not fall behind by more than their buffer (that would
 			// legitimately terminate them); only the one that never reads is meant to overflow
 			for t := 0; t < 400 && !caughtUp(b.Num); t++ {
